@@ -323,3 +323,409 @@ Proof.
       * exists s'. autorewrite with pst in C1. cbn [rev]. rewrite <- !app_assoc. cbn [app].
         rewrite last_cons. auto.
 Qed.
+
+(* first character of a plain value: it replaces the pending blank *)
+Lemma data_first_plain c l s la E F R0 :
+  plain_char c = true -> isspace c = false -> c <> 35 ->
+  pth s = mkPath E R0 (len R0) F false true -> small R0 ->
+  exists s', data_loop fd (c :: l) s 0 la = data_loop fd l s' 0 c /\
+    pth s' = mkPath E [c] (len [c]) F true true /\ valid s' = 1 /\ pcurr s' = pcurr s.
+Proof.
+  intros Hc SP NC HP SM. apply plain_char_spec in Hc.
+  rewrite data_loop_cons by lia.
+  unfold data_body. change (0 =? 0) with true. cbn [negb]. rewrite isescape_fd, iscomment_fd.
+  cbn [fd fmt_default oend]. zb. cbn [orb andb]. rewrite SP. cbn [negb].
+  assert (PA : pth (addch (tick s c) c) = mkPath E [c] (len [c]) F false true).
+  { rewrite pth_addch, pth_tick, HP. apply addchar_small; [assumption|lia]. }
+  destruct (set_valid_path _ _ _ _ _ _ _ PA) as [P0 V0]; [cbn; unfold VALID_MOD; lia|].
+  exists (set_valid (addch (tick s c) c)). split; [reflexivity|]. split; [exact P0|]. split; [exact V0|].
+  now autorewrite with pst.
+Qed.
+
+(* end of a value: newline *)
+Lemma data_end_nl l s la :
+  data_loop fd (10 :: l) s 0 la = (10, l, addch (tick s 10) 10).
+Proof.
+  rewrite data_loop_cons by lia. unfold data_body. change (0 =? 0) with true. cbn [negb].
+  rewrite isescape_fd. cbn [fd fmt_default oend]. reflexivity.
+Qed.
+
+Lemma endline_text t : Forall (fun c => 0 <= c /\ c <> 10) t ->
+  forall l s, exists s', same s s' /\ endline (t ++ 10 :: l) s = (0, l, s').
+Proof.
+  induction 1 as [|c t Hc Ht IH]; intros l s; cbn [app endline].
+  - exists (tick s 10). split; [apply same_tick|reflexivity].
+  - zb. destruct (IH l (tick_raw s)) as (s' & S & E). exists s'. split; [|exact E].
+    eapply same_trans; [apply same_tick_raw|exact S].
+Qed.
+
+(* end of a value: comment behind white space *)
+Lemma data_end_comment t l s la :
+  isspace la = true ->
+  exists s', data_loop fd (35 :: ctext t ++ 10 :: l) s 0 la = (35, l, s') /\ same (addch (tick s 35) 35) s'.
+Proof.
+  intros SP. rewrite data_loop_cons by lia. unfold data_body. change (0 =? 0) with true. cbn [negb].
+  rewrite isescape_fd, iscomment_fd. cbn [fd fmt_default oend]. change (35 =? 34) with false.
+  change (35 =? 39) with false. change (35 =? 0) with false. change (35 =? 10) with false.
+  change (0 =? 0) with true. change (35 =? 35) with true. cbn [orb andb]. rewrite SP.
+  destruct (endline_text (ctext t) (ctext_ok t) l (addch (tick s 35) 35)) as (s' & S & E).
+  rewrite E. exists s'. split; [reflexivity|exact S].
+Qed.
+
+(* ---- quoted values ---- *)
+Definition quote_char (q : Z) : Prop := q = 34 \/ q = 39.
+
+(* state while the decoded prefix v1 of a quoted value has been collected *)
+Definition qs (s : pst) (E : list (list Z)) (F q : Z) (v1 : list Z) : Prop :=
+  match v1 with
+  | [] => pth s = mkPath E [q] 1 F false true /\ valid s = 0
+  | _ => pth s = mkPath E (rev v1) (len v1) F true true /\ valid s = len v1
+  end.
+
+Lemma delchar_cons E x R L F K : path_delchar (mkPath E (x :: R) L F K true) = mkPath E R (L - 1) F K true.
+Proof. reflexivity. Qed.
+
+Lemma data_open_quote q l s la E F R0 :
+  quote_char q -> pth s = mkPath E R0 (len R0) F false true -> small R0 -> valid s = 0 ->
+  exists s', data_loop fd (q :: l) s 0 la = data_loop fd l s' q q /\ qs s' E F q [] /\ pcurr s' = pcurr s.
+Proof.
+  intros Q HP SM HV. assert (0 < q < 256) by (destruct Q; lia).
+  rewrite data_loop_cons by lia. unfold data_body. change (0 =? 0) with true. cbn [negb].
+  rewrite isescape_fd. replace ((q =? 34) || (q =? 39)) with true by (destruct Q; subst; reflexivity).
+  exists (addch (tick s q) q). split; [reflexivity|]. split; [|now autorewrite with pst].
+  unfold qs. split; [|now autorewrite with pst].
+  rewrite pth_addch, pth_tick, HP. apply addchar_small; [assumption|lia].
+Qed.
+
+(* one ordinary character inside the quotes *)
+Lemma data_quoted_char q x l s la E F v1 :
+  quote_char q -> 1 <= x <= 255 -> x <> q -> qs s E F q v1 -> len v1 + 2 < VALID_MOD ->
+  exists s', data_loop fd (x :: l) s q la = data_loop fd l s' q x /\ qs s' E F q (v1 ++ [x]) /\ pcurr s' = pcurr s.
+Proof.
+  intros Q Bx NQ HQ HL. assert (0 < q < 256) by (destruct Q; lia).
+  rewrite data_loop_cons by lia. unfold data_body.
+  replace (negb (q =? 0)) with true by (destruct Q; subst; reflexivity). zb.
+  cbn [andb]. exists (set_valid (addch (tick s x) x)). split; [reflexivity|].
+  split; [|now autorewrite with pst].
+  unfold qs in *. destruct v1 as [|y v1].
+  - destruct HQ as [HP HV]. cbn [app].
+    assert (PA : pth (addch (tick s x) x) = mkPath E [x] 1 F false true).
+    { rewrite pth_addch, pth_tick, HP. cbn [path_addchar pbuf rpost pkeep negb pelems plen pfirst].
+      now rewrite byte_of_small by lia. }
+    destruct (set_valid_path _ _ _ _ _ _ _ PA) as [P0 V0]; [unfold VALID_MOD; lia|].
+    cbn [rev app]. split; assumption.
+  - destruct HQ as [HP HV]. pose proof (len_nonneg (y :: v1)).
+    assert (NE : (y :: v1) ++ [x] <> []) by (destruct v1; discriminate).
+    destruct ((y :: v1) ++ [x]) eqn:EQ; [now destruct NE|]. rewrite <- EQ. clear EQ NE.
+    assert (PA : pth (addch (tick s x) x) = mkPath E (x :: rev (y :: v1)) (len (x :: rev (y :: v1))) F true true).
+    { rewrite pth_addch, pth_tick, HP.
+      replace (len (y :: v1)) with (len (rev (y :: v1))) by (unfold len; now rewrite rev_length).
+      apply addchar_keep. lia. }
+    assert (LR : len (x :: rev (y :: v1)) = len (y :: v1) + 1) by (rewrite len_cons; unfold len; now rewrite rev_length).
+    destruct (set_valid_path _ _ _ _ _ _ _ PA) as [P0 V0]; [rewrite LR; lia|].
+    rewrite rev_app_distr. cbn [rev app] in *. rewrite P0, V0.
+    assert (LL : len (x :: rev v1 ++ [y]) = len (y :: v1 ++ [x])).
+    { unfold len. cbn [length]. rewrite !app_length, rev_length. cbn [length]. lia. }
+    rewrite LL. split; reflexivity.
+Qed.
+
+(* an escaped quote inside the quotes: the backslash is dropped, the quote kept *)
+Lemma data_quoted_escape q l s la E F v1 :
+  quote_char q -> qs s E F q v1 -> len v1 + 3 < VALID_MOD ->
+  exists s', data_loop fd (92 :: q :: l) s q la = data_loop fd l s' q q /\ qs s' E F q (v1 ++ [q]) /\ pcurr s' = pcurr s.
+Proof.
+  intros Q HQ HL. assert (0 < q < 256) by (destruct Q; lia). assert (q <> 92) by (destruct Q; lia).
+  destruct (data_quoted_char q 92 (q :: l) s la E F v1 Q) as (s1 & E1 & Q1 & C1); [lia|lia|assumption|lia|].
+  rewrite E1. clear E1.
+  (* now the quote with last = 92 *)
+  rewrite data_loop_cons by lia. unfold data_body.
+  replace (negb (q =? 0)) with true by (destruct Q; subst; reflexivity). zb.
+  cbn [negb andb]. eexists. split; [reflexivity|]. split; [|autorewrite with pst; exact C1].
+  unfold qs in Q1. destruct (v1 ++ [92]) as [|y w] eqn:EQ; [destruct v1; discriminate|].
+  rewrite <- EQ in Q1. clear EQ y w. destruct Q1 as [HP HV].
+  assert (RV : rev (v1 ++ [92]) = 92 :: rev v1) by (rewrite rev_app_distr; reflexivity).
+  assert (LV : len (v1 ++ [92]) = len v1 + 1) by (unfold len; rewrite app_length; cbn; lia).
+  rewrite RV, LV in HP.
+  assert (PA : pth (with_path (addch (tick s1 q) q)
+                 (path_addchar (path_delchar (path_delchar (pth (addch (tick s1 q) q)))) q))
+               = mkPath E (q :: rev v1) (len v1 + 1) F true true).
+  { rewrite pth_with_path, pth_addch, pth_tick, HP.
+    cbn [path_addchar pbuf rpost pkeep negb pelems plen pfirst]. rewrite !byte_of_small by lia.
+    rewrite !delchar_cons.
+    replace (len v1 + 1 + 1 - 1 - 1) with (len (rev v1)) by (unfold len; rewrite rev_length; lia).
+    rewrite addchar_keep by lia. f_equal. rewrite len_cons. unfold len. rewrite rev_length. lia. }
+  pose proof (len_nonneg v1).
+  destruct (set_valid_path _ _ _ _ _ _ _ PA) as [P0 V0]; [lia|].
+  unfold qs. destruct (v1 ++ [q]) as [|y w] eqn:EQ; [destruct v1; discriminate|]. rewrite <- EQ. clear EQ y w.
+  rewrite rev_app_distr. cbn [rev app].
+  assert (LQ : len (v1 ++ [q]) = len v1 + 1) by (unfold len; rewrite app_length; cbn; lia).
+  rewrite LQ. split; assumption.
+Qed.
+
+(* the whole escaped text *)
+Lemma data_quoted_loop q : quote_char q -> forall v l s la E F v1,
+  Forall (fun c => byteb c = true) v -> qs s E F q v1 -> len v1 + len v + 3 < VALID_MOD ->
+  exists s', data_loop fd (escape q v ++ l) s q la = data_loop fd l s' q (last v la) /\
+             qs s' E F q (v1 ++ v) /\ pcurr s' = pcurr s.
+Proof.
+  intros Q. induction v as [|x v IH]; intros l s la E F v1 FA HQ HL.
+  - exists s. cbn [escape flat_map app last]. rewrite app_nil_r. auto.
+  - inversion FA as [|? ? Hx FA']; subst. unfold byteb in Hx. apply andb_true_iff in Hx. destruct Hx as [X1 X2].
+    apply Z.leb_le in X1, X2. rewrite len_cons in HL. pose proof (len_nonneg v). pose proof (len_nonneg v1).
+    change (escape q (x :: v)) with ((if x =? q then [92; q] else [x]) ++ escape q v).
+    rewrite last_cons.
+    assert (LA : len (v1 ++ [x]) = len v1 + 1) by (unfold len; rewrite app_length; cbn; lia).
+    destruct (Z.eqb_spec x q) as [->|NE].
+    + cbn [app]. destruct (data_quoted_escape q (escape q v ++ l) s la E F v1 Q HQ) as (s1 & E1 & Q1 & C1); [lia|].
+      destruct (IH l s1 q E F (v1 ++ [q]) FA' Q1) as (s2 & E2 & Q2 & C2); [lia|].
+      exists s2. rewrite E1, E2. rewrite <- app_assoc in Q2. cbn [app] in Q2. split; [reflexivity|].
+      split; [exact Q2|congruence].
+    + cbn [app]. destruct (data_quoted_char q x (escape q v ++ l) s la E F v1 Q) as (s1 & E1 & Q1 & C1); [lia|assumption|assumption|lia|].
+      destruct (IH l s1 x E F (v1 ++ [x]) FA' Q1) as (s2 & E2 & Q2 & C2); [lia|].
+      exists s2. rewrite E1, E2. rewrite <- app_assoc in Q2. cbn [app] in Q2. split; [reflexivity|].
+      split; [exact Q2|congruence].
+Qed.
+
+(* the closing quote (the character in front is no backslash) *)
+Lemma data_close_quote q l s la E F v :
+  quote_char q -> la <> 92 -> qs s E F q v ->  len v + 2 < VALID_MOD ->
+  exists s', data_loop fd (q :: l) s q la = data_loop fd l s' 0 q /\ pcurr s' = pcurr s /\ valid s' = len v /\
+    match v with
+    | [] => pth s' = mkPath E [] 0 F false true
+    | _ => pth s' = mkPath E (rev v) (len v) F true true
+    end.
+Proof.
+  intros Q NL HQ HL. assert (0 < q < 256) by (destruct Q; lia).
+  rewrite data_loop_cons by lia. unfold data_body.
+  replace (negb (q =? 0)) with true by (destruct Q; subst; reflexivity). zb.
+  cbn [negb andb]. eexists. split; [reflexivity|]. split; [now autorewrite with pst|].
+  unfold qs in HQ. destruct v as [|y v].
+  - destruct HQ as [HP HV]. autorewrite with pst. rewrite HP.
+    cbn [path_addchar pbuf rpost pkeep negb pelems plen pfirst path_delchar path_valid fst snd].
+    cbn. split; reflexivity.
+  - destruct HQ as [HP HV]. pose proof (len_nonneg (y :: v)).
+    assert (PA : pth (with_path (addch (tick s q) q) (path_delchar (pth (addch (tick s q) q))))
+                 = mkPath E (rev (y :: v)) (len (y :: v)) F true true).
+    { rewrite pth_with_path, pth_addch, pth_tick, HP.
+      replace (len (y :: v)) with (len (rev (y :: v))) by (unfold len; now rewrite rev_length).
+      rewrite addchar_keep by lia. rewrite delchar_cons. f_equal. rewrite len_cons. lia. }
+    destruct (rev (y :: v)) as [|z R] eqn:ER.
+    { apply (f_equal (@length Z)) in ER. rewrite rev_length in ER. discriminate. }
+    destruct (set_valid_path _ _ _ _ _ _ _ PA) as [P0 V0]; [lia|]. split; assumption.
+Qed.
+
+(* ---- what follows the value: blanks, optional comment, newline ---- *)
+Lemma tail_split d rest :
+  hws (d_trail d) ++ tail_comment d ++ 10 :: rest =
+  match d_tcomment d with
+  | None => hws (d_trail d) ++ 10 :: rest
+  | Some t => (hws (d_trail d) ++ [32]) ++ 35 :: ctext t ++ 10 :: rest
+  end.
+Proof.
+  unfold tail_comment. destruct (d_tcomment d); [|reflexivity].
+  rewrite <- !app_assoc. reflexivity.
+Qed.
+
+Lemma hws_32 l : Forall (fun c => hspace c = true) (hws l ++ [32]).
+Proof. apply Forall_app. split; [apply hws_hspaces|constructor; [reflexivity|constructor]]. Qed.
+
+Lemma data_tail_keep d rest s la E F R :
+  pth s = mkPath E R (len R) F true true ->
+  exists s' c J, data_loop fd (hws (d_trail d) ++ tail_comment d ++ 10 :: rest) s 0 la = (c, rest, s') /\
+    pth s' = mkPath E (J ++ R) (len (J ++ R)) F true true /\ valid s' = valid s /\ pcurr s' = pcurr s.
+Proof.
+  intros HP. rewrite tail_split. destruct (d_tcomment d) as [t|].
+  - destruct (data_hblanks _ s (35 :: ctext t ++ 10 :: rest) la E F R (hws_32 (d_trail d)) HP) as (s1 & la1 & E1 & P1 & V1 & C1 & L1 & _).
+    assert (SP : isspace la1 = true) by (apply L1; destruct (hws (d_trail d)); discriminate).
+    destruct (data_end_comment t rest s1 la1 SP) as (s2 & E2 & (S1 & S2 & S3)).
+    exists s2, 35, (35 :: rev (hws (d_trail d) ++ [32])). rewrite E1, E2. split; [reflexivity|].
+    autorewrite with pst in S1, S2, S3. rewrite S1, S2, S3, P1.
+    split; [|split; assumption].
+    rewrite addchar_keep by lia. reflexivity.
+  - destruct (data_hblanks _ s (10 :: rest) la E F R (hws_hspaces (d_trail d)) HP) as (s1 & la1 & E1 & P1 & V1 & C1 & _).
+    exists (addch (tick s1 10) 10), 10, (10 :: rev (hws (d_trail d))). rewrite E1, data_end_nl.
+    split; [reflexivity|]. autorewrite with pst. rewrite P1.
+    split; [|split; assumption]. rewrite addchar_keep by lia. reflexivity.
+Qed.
+
+(* from the blank state (nothing collected) *)
+Lemma data_tail_small d pre rest s la E F R0 :
+  Forall (fun c => hspace c = true) pre ->
+  pth s = mkPath E R0 (len R0) F false true -> small R0 ->
+  exists s' c, data_loop fd (pre ++ hws (d_trail d) ++ tail_comment d ++ 10 :: rest) s 0 la = (c, rest, s') /\
+    pelems (pth s') = E /\ pbuf (pth s') = true /\ valid s' = valid s /\ pcurr s' = pcurr s.
+Proof.
+  intros FP HP SM. rewrite tail_split. destruct (d_tcomment d) as [t|].
+  - rewrite app_assoc.
+    assert (FA : Forall (fun c => hspace c = true) (pre ++ hws (d_trail d) ++ [32])).
+    { apply Forall_app. split; [assumption|apply hws_32]. }
+    destruct (data_lead_blanks _ s (35 :: ctext t ++ 10 :: rest) la E F R0 FA HP SM)
+      as (s1 & la1 & R1 & E1 & P1 & S1 & V1 & C1 & L1 & _).
+    assert (SP : isspace la1 = true).
+    { apply L1. destruct pre; [destruct (hws (d_trail d))|]; discriminate. }
+    destruct (data_end_comment t rest s1 la1 SP) as (s2 & E2 & (T1 & T2 & T3)).
+    exists s2, 35. rewrite E1, E2. split; [reflexivity|].
+    autorewrite with pst in T1, T2, T3. rewrite T1, T2, T3, P1, addchar_small by (assumption || lia).
+    cbn [pelems pbuf]. auto.
+  - rewrite app_assoc.
+    assert (FA : Forall (fun c => hspace c = true) (pre ++ hws (d_trail d))).
+    { apply Forall_app. split; [assumption|apply hws_hspaces]. }
+    destruct (data_lead_blanks _ s (10 :: rest) la E F R0 FA HP SM)
+      as (s1 & la1 & R1 & E1 & P1 & S1 & V1 & C1 & _).
+    exists (addch (tick s1 10) 10), 10. rewrite E1, data_end_nl. split; [reflexivity|].
+    autorewrite with pst. rewrite P1, addchar_small by (assumption || lia). cbn [pelems pbuf]. auto.
+Qed.
+
+(* the bytes handed to the handler *)
+Lemma post_read_value s E J v F K :
+  pth s = mkPath E (J ++ rev v) (len (J ++ rev v)) F K true ->
+  post_read s (len v) = Some v.
+Proof.
+  intros HP. unfold post_read. rewrite HP. cbn [plen].
+  assert (L : len v <= len (J ++ rev v)).
+  { unfold len. rewrite app_length, rev_length. lia. }
+  pose proof (len_nonneg v).
+  replace ((0 <=? len v) && (len v <=? len (J ++ rev v))) with true
+    by (symmetry; apply andb_true_iff; split; apply Z.leb_le; lia).
+  f_equal. rewrite ppost_rev. cbn [rpost]. rewrite rev_app_distr, rev_involutive.
+  unfold len. rewrite Nat2Z.id. rewrite firstn_app, Nat.sub_diag, firstn_all. cbn. apply app_nil_r.
+Qed.
+
+(* ---------------------------------------------------------------- a printed value is read back *)
+Lemma plain_ok_inv v : plain_ok v = true ->
+  exists c0 v', v = c0 :: v' /\ Forall (fun c => plain_char c = true) v /\ isspace c0 = false /\ c0 <> 35 /\
+                isspace (last v 0) = false /\ no_ws_hash v = true.
+Proof.
+  destruct v as [|c0 v']; [discriminate|]. unfold plain_ok.
+  rewrite !andb_true_iff, !negb_true_iff, Z.eqb_neq. intros ((((A & B) & C) & D) & E).
+  exists c0, v'. repeat split; auto. apply Forall_forall. now apply forallb_forall.
+Qed.
+
+Lemma no_ws_hash_nwh c v : no_ws_hash (c :: v) = nwh c v.
+Proof.
+  revert c. induction v as [|x v IH]; intros c; [reflexivity|].
+  change (no_ws_hash (c :: x :: v)) with (negb (isspace c && (x =? 35)) && no_ws_hash (x :: v)).
+  cbn [nwh]. now rewrite IH.
+Qed.
+
+(* vlr of collected data whose last character is no blank *)
+Lemma vlr_last R : R <> [] -> isspace (hd 0 R) = false -> vlr R = len R.
+Proof. destruct R as [|c R]; [intros X; now destruct X|]. cbn [hd vlr]. intros _ ->. reflexivity. Qed.
+
+Lemma hd_rev_last (v : list Z) d : hd d (rev v) = last v d.
+Proof.
+  induction v as [|x v IH] using rev_ind; [reflexivity|]. rewrite rev_app_distr. cbn [rev app hd].
+  now rewrite last_last.
+Qed.
+
+Lemma parse_data_eq l s :
+  parse_data fd l s = let '(c, r, s1) := data_loop fd l s 0 (-1) in (valid s1, r, s1).
+Proof. unfold parse_data. destruct (data_loop fd l s 0 (-1)) as [[c r] s1]. reflexivity. Qed.
+
+Lemma parse_data_value d v rest s E F :
+  wf_value v = true -> pth s = mkPath E [] 0 F false true -> valid s = 0 ->
+  exists s', parse_data fd (hws (d_mid2 d) ++ print_value d v ++ hws (d_trail d) ++ tail_comment d ++ 10 :: rest) s
+             = (len v, rest, s') /\
+    pelems (pth s') = E /\ pbuf (pth s') = true /\ pcurr s' = pcurr s /\ valid s' = len v /\
+    (v <> [] -> post_read s' (len v) = Some v).
+Proof.
+  intros WF HP HV. unfold wf_value in WF. apply andb_true_iff in WF. destruct WF as [WF WL].
+  apply andb_true_iff in WF. destruct WF as [WB WQ].
+  apply Z.ltb_lt in WL. fold (len v) in WL. unfold VALUE_MAX in WL.
+  assert (FB : Forall (fun c => byteb c = true) v) by (apply Forall_forall; now apply forallb_forall).
+  assert (SM0 : small []) by (now left).
+  rewrite parse_data_eq.
+  unfold print_value. set (q := if d_quote d =? 39 then 39 else 34).
+  assert (Q : quote_char q) by (subst q; destruct (d_quote d =? 39); [right|left]; reflexivity).
+  destruct v as [|y v0].
+  - (* empty value *)
+    destruct (d_quote d =? 0).
+    + cbn [app]. destruct (data_tail_small d (hws (d_mid2 d)) rest s (-1) E F [] (hws_hspaces _) HP SM0)
+        as (s' & c & E1 & P1 & B1 & V1 & C1).
+      rewrite E1. exists s'. rewrite V1, HV. repeat split; auto; try (intros X; now destruct X).
+    + destruct (data_lead_blanks _ s ([q; q] ++ hws (d_trail d) ++ tail_comment d ++ 10 :: rest) (-1) E F []
+                  (hws_hspaces (d_mid2 d)) HP SM0) as (s1 & la1 & R1 & E1 & P1 & S1 & V1 & C1 & _).
+      rewrite E1. cbn [app].
+      destruct (data_open_quote q (q :: hws (d_trail d) ++ tail_comment d ++ 10 :: rest) s1 la1 E F R1 Q P1 S1)
+        as (s2 & E2 & Q2 & C2); [congruence|]. rewrite E2.
+      destruct (data_close_quote q (hws (d_trail d) ++ tail_comment d ++ 10 :: rest) s2 q E F [] Q) as (s3 & E3 & C3 & V3 & P3);
+        [destruct Q; lia|exact Q2|cbn; unfold VALID_MOD; lia|]. rewrite E3.
+      destruct (data_tail_small d [] rest s3 q E F [] (Forall_nil _) P3 SM0) as (s' & c & E4 & P4 & B4 & V4 & C4).
+      cbn [app] in E4. rewrite E4. exists s'. rewrite V4, V3. repeat split; auto; try congruence; try (intros X; now destruct X).
+  - set (v := y :: v0) in *.
+    destruct (plain_ok v && ((d_quote d =? 0) || negb (quotable v))) eqn:PL.
+    + (* plain *)
+      apply andb_true_iff in PL. destruct PL as [PL _].
+      destruct (plain_ok_inv v PL) as (c0 & v' & EV & FP & SP0 & NC & SPL & NW).
+      assert (c0 = y /\ v' = v0) as [-> ->] by (subst v; inversion EV; auto). clear EV.
+      destruct (data_lead_blanks _ s (v ++ hws (d_trail d) ++ tail_comment d ++ 10 :: rest) (-1) E F []
+                  (hws_hspaces (d_mid2 d)) HP SM0) as (s1 & la1 & R1 & E1 & P1 & S1 & V1 & C1 & _).
+      rewrite E1. subst v. cbn [app].
+      inversion FP as [|? ? Hy FP']; subst.
+      destruct (data_first_plain y (v0 ++ hws (d_trail d) ++ tail_comment d ++ 10 :: rest) s1 la1 E F R1 Hy SP0 NC P1 S1)
+        as (s2 & E2 & P2 & V2 & C2). rewrite E2.
+      rewrite no_ws_hash_nwh in NW. rewrite len_cons in WL. pose proof (len_nonneg v0).
+      destruct (data_plain_loop v0 s2 (hws (d_trail d) ++ tail_comment d ++ 10 :: rest) y E F [y] FP' NW P2)
+        as (s3 & E3 & P3 & V3 & C3); [cbn [vlr]; rewrite SP0; exact V2|rewrite len_cons, len_nil; unfold VALID_MOD; lia|].
+      rewrite E3.
+      destruct (data_tail_keep d rest s3 (last v0 y) E F (rev v0 ++ [y]) P3) as (s' & c & J & E4 & P4 & V4 & C4).
+      rewrite E4. exists s'.
+      assert (RV : rev v0 ++ [y] = rev (y :: v0)) by reflexivity.
+      assert (VL : vlr (rev v0 ++ [y]) = len (y :: v0)).
+      { rewrite RV, vlr_last.
+        - unfold len. now rewrite rev_length.
+        - intros X. apply (f_equal (@length Z)) in X. rewrite rev_length in X. discriminate.
+        - rewrite hd_rev_last. exact SPL. }
+      rewrite V4, V3, VL, P4. cbn [pelems pbuf]. repeat split; auto; try congruence.
+      intros _. rewrite RV in P4. eapply post_read_value. exact P4.
+    + (* quoted *)
+      assert (QT : quotable v = true).
+      { apply orb_true_iff in WQ. destruct WQ as [WQ|WQ]; [|exact WQ].
+        rewrite WQ in PL. cbn [andb] in PL. apply orb_false_iff in PL. destruct PL as [_ PL].
+        now apply negb_false_iff in PL. }
+      unfold quotable in QT. apply negb_true_iff, Z.eqb_neq in QT.
+      destruct (data_lead_blanks _ s (([q] ++ escape q v ++ [q]) ++ hws (d_trail d) ++ tail_comment d ++ 10 :: rest) (-1) E F []
+                  (hws_hspaces (d_mid2 d)) HP SM0) as (s1 & la1 & R1 & E1 & P1 & S1 & V1 & C1 & _).
+      rewrite E1. rewrite <- !app_assoc. cbn [app].
+      destruct (data_open_quote q (escape q v ++ q :: hws (d_trail d) ++ tail_comment d ++ 10 :: rest) s1 la1 E F R1 Q P1 S1)
+        as (s2 & E2 & Q2 & C2); [congruence|]. rewrite E2.
+      pose proof (len_nonneg v).
+      destruct (data_quoted_loop q Q v (q :: hws (d_trail d) ++ tail_comment d ++ 10 :: rest) s2 q E F [] FB Q2)
+        as (s3 & E3 & Q3 & C3); [rewrite len_nil; unfold VALID_MOD; lia|]. rewrite E3. cbn [app] in Q3.
+      assert (LQ : last v q <> 92).
+      { subst v. rewrite last_cons. rewrite last_cons in QT. exact QT. }
+      destruct (data_close_quote q (hws (d_trail d) ++ tail_comment d ++ 10 :: rest) s3 (last v q) E F v Q LQ Q3)
+        as (s4 & E4 & C4 & V4 & P4); [unfold VALID_MOD; lia|]. rewrite E4.
+      subst v.
+      destruct (data_tail_keep d rest s4 q E F (rev (y :: v0))) as (s' & c & J & E5 & P5 & V5 & C5).
+      { replace (len (rev (y :: v0))) with (len (y :: v0)) by (unfold len; now rewrite rev_length). exact P4. }
+      rewrite E5. exists s'. rewrite V5, V4, P5. cbn [pelems pbuf]. repeat split; auto; try congruence.
+      intros _. eapply post_read_value. exact P5.
+Qed.
+
+(* blanks behind a name: appended, the valid length stays (no bound on their number) *)
+Lemma pre_scan_blanks (a : allow) : forall w c s d l E R F,
+  Forall (fun x => hspace x = true) (c :: w) -> 0 < d < 256 ->
+  pth s = mkPath E (c :: R) (len (c :: R)) F true true ->
+  exists s', pre_loop fd a c (w ++ d :: l) s = pre_loop fd a d l s' /\
+             pth s' = mkPath E (d :: rev w ++ c :: R) (len (d :: rev w ++ c :: R)) F true true /\
+             valid s' = valid s /\ pcurr s' = PName.
+Proof.
+  induction w as [|x w IH]; intros c s d l E R F FA PD HP.
+  - inversion FA as [|? ? Hc _]; subst. apply hspace_spec in Hc as Hc'.
+    assert (SP : isspace c = true) by (apply isspace_spec; lia).
+    cbn [app]. rewrite pre_loop_eq. unfold pre_body. cbn [fd fmt_default send sstart ostart assign oend].
+    rewrite iscomment_fd. zb. cbv iota. rewrite SP. cbn [negb]. zb.
+    eexists. split; [reflexivity|].
+    split; [rewrite pth_addch, pth_tick, pth_with_curr, HP; cbn [rev app]; now rewrite addchar_keep by lia|].
+    split; now autorewrite with pst.
+  - inversion FA as [|? ? Hc FA']; subst. apply hspace_spec in Hc as Hc'.
+    inversion FA' as [|? ? Hx _]; subst. apply hspace_spec in Hx as Hx'.
+    assert (SP : isspace c = true) by (apply isspace_spec; lia).
+    cbn [app]. rewrite pre_loop_eq. unfold pre_body. cbn [fd fmt_default send sstart ostart assign oend].
+    rewrite iscomment_fd. zb. cbv iota. rewrite SP. cbn [negb]. zb.
+    destruct (IH x (addch (tick (with_curr s PName) x) x) d l E (c :: R) F FA' PD) as (s' & E1 & P1 & V1 & C1).
+    + rewrite pth_addch, pth_tick, pth_with_curr, HP. apply addchar_keep. lia.
+    + exists s'. split; [exact E1|]. cbn [rev]. rewrite <- !app_assoc. cbn [app].
+      rewrite valid_addch, valid_tick, valid_with_curr in V1. auto.
+Qed.
